@@ -115,7 +115,7 @@ class Run:
         return best
 
     def run_verus(self, modules, whole=False, seed=None, rlimit=None):
-        cmd = ['verus', self.woven_path, '--output-json', '--time', '--error-format=json', '--multiple-errors', '8',
+        cmd = ['verus', self.woven_path, '--output-json', '--time', '--error-format=json', '--multiple-errors', '60',
                '--num-threads', '16']
         if rlimit: cmd += ['--rlimit', str(rlimit)]
         if not whole:
